@@ -304,7 +304,7 @@ theorem delegateApply_sv (hc : c.Adm) {s : State} (h : SV c s.store) (now parent
 
 theorem delegate_sv (hc : c.Adm) {s : State} (h : SV c s.store) (now parent child : Nat) (secs : List Nat) (l : Level)
     (ttl : Option Nat) : SV c (s.delegate now parent child secs l ttl).1.store := by
-  have h0 : SV c (if parent = root || secs.isEmpty then s else s.cleanup now).store := by
+  have h0 : SV c (if parent = root || isNodeKey parent || secs.isEmpty then s else s.cleanup now).store := by
     split
     · exact h
     · exact cleanup_sv hc h now
